@@ -1,3 +1,42 @@
 package main
 
-func extraCommand(name string, args []string) bool { return false }
+import (
+	"bufio"
+	"fmt"
+	"math/rand"
+	"os"
+)
+
+func extraCommand(name string, args []string) bool {
+	switch name {
+	case "oracle":
+		runOracle(args)
+		return true
+	case "gen":
+		// gen <stream> <seed> <n> [thorough]
+		stream := args[0]
+		seed := int64(atoi(args[1]))
+		n := atoi(args[2])
+		thorough := len(args) > 3 && args[3] == "thorough"
+		r := rand.New(rand.NewSource(seed))
+		out := bufio.NewWriterSize(os.Stdout, 1<<20)
+		defer out.Flush()
+		emit := func(s string) { fmt.Fprintln(out, s) }
+		switch stream {
+		case "lex":
+			genLex(r, n, thorough, emit)
+		case "smap":
+			rng := 1 << 11
+			if thorough {
+				rng = 1 << 20
+			}
+			genSmap(r, n, rng, emit)
+		case "build":
+			genBuild(r, n, emit)
+		default:
+			return genMore(stream, r, n, thorough, emit)
+		}
+		return true
+	}
+	return false
+}
